@@ -24,7 +24,7 @@ def sh(cmd, timeout=None, **kw):
 def goto_build(wd, name, sources, defs=(), incs=()):
     os.makedirs(wd, exist_ok=True)
     out = os.path.join(wd, name + ".goto")
-    cmd = ["goto-cc", "-I" + REPO + "/SRC", "-I" + VERIF + "/harness/e1", "-DNDEBUG", "-DPRNTlevel=0", "-DDEBUGlevel=0", "-D__CPROVER"] + ["-I" + i for i in incs] + list(defs) + ["-o", out] + list(sources)
+    cmd = ["goto-cc", "-I" + REPO + "/SRC", "-I" + VERIF + "/harness/e1", "-I" + VERIF + "/harness/compat", "-DNDEBUG", "-DPRNTlevel=0", "-DDEBUGlevel=0", "-D__CPROVER"] + ["-I" + i for i in incs] + list(defs) + ["-o", out] + list(sources)
     rc, o = sh(cmd, timeout=600)
     if rc != 0: raise RuntimeError("goto-cc failed: %s\n%s" % (" ".join(cmd), o[-3000:]))
     return out
@@ -110,7 +110,7 @@ def native_replay(wd, name, sources, defs, seq, incs=(), timeout=60, stubs=()):
     open(vf, "w").write("\n".join(seq) + "\n")
     sf = os.path.join(wd, name + "_stubs.c")
     open(sf, "w").write("#include <stdlib.h>\n#include <stdio.h>\n" + "".join("void %s(void) { printf(\"REPLAY-FAIL: cut function %s reached\\n\"); exit(1); }\n" % (f, f) for f in stubs))
-    cmd = ["cc", "-O0", "-w", "-I" + REPO + "/SRC", "-I" + VERIF + "/harness/e1", "-DNDEBUG", "-DPRNTlevel=0", "-DDEBUGlevel=0"] + ["-I" + i for i in incs] + [d for d in defs if d != "-DWITNESS"] + ["-o", exe] + list(sources) + [sf, "-lm"]
+    cmd = ["cc", "-O0", "-w", "-I" + REPO + "/SRC", "-I" + VERIF + "/harness/e1", "-I" + VERIF + "/harness/compat", "-DNDEBUG", "-DPRNTlevel=0", "-DDEBUGlevel=0"] + ["-I" + i for i in incs] + [d for d in defs if d != "-DWITNESS"] + ["-o", exe] + list(sources) + [sf, "-lm"]
     rc, o = sh(cmd, timeout=300)
     if rc != 0: return None, "native build failed: " + o[-800:]
     rc, o = sh([exe], timeout=timeout, env=dict(os.environ, E1_REPLAY=vf))
